@@ -247,6 +247,40 @@ pub fn check_case(c: &Case, ctx: &mut Ctx) -> CheckResult {
             B(lf.clone())
         );
     }
+    // the whole-sequence views of FASTA records (full_seq / owned_seq / owned record) must agree between the
+    // renderings as well, and contain no CR
+    if c.format == Format::Fasta {
+        let views = |text: &[u8], cap: usize| -> Vec<(Vec<u8>, Vec<u8>, Vec<u8>)> {
+            use seq_io::fasta::Record;
+            let mut rdr = seq_io::fasta::Reader::with_capacity(text, cap);
+            let mut v = Vec::new();
+            while let Some(Ok(r)) = rdr.next() {
+                let o = r.to_owned_record();
+                v.push((r.full_seq().to_vec(), r.owned_seq(), o.seq().to_vec()));
+            }
+            v
+        };
+        let va = views(&lf, c.cap_a);
+        let vb = views(&other, c.cap_b);
+        ensure!(
+            va == vb,
+            format!("{}/lf-vs-crlf/full-sequence-differs", f),
+            "full_seq()/owned_seq()/owned record sequence differ between the renderings: LF {:?} vs other {:?}",
+            va.iter().map(|x| (B(x.0.clone()), B(x.1.clone()), B(x.2.clone()))).collect::<Vec<_>>(),
+            vb.iter().map(|x| (B(x.0.clone()), B(x.1.clone()), B(x.2.clone()))).collect::<Vec<_>>()
+        );
+        for (i, x) in vb.iter().enumerate() {
+            ensure!(
+                !x.0.contains(&b'\r') && !x.1.contains(&b'\r') && !x.2.contains(&b'\r'),
+                format!("{}/carriage-return-in-field", f),
+                "record {}: a whole-sequence view contains CR: full_seq {:?}, owned_seq {:?}, owned record {:?}",
+                i,
+                B(x.0.clone()),
+                B(x.1.clone()),
+                B(x.2.clone())
+            );
+        }
+    }
     for o in rb.outs.iter() {
         if let Out::Rec(r) = o {
             let cr = r.head.contains(&b'\r') || r.lines.iter().any(|l| l.contains(&b'\r')) || r.qual.as_ref().map_or(false, |q| q.contains(&b'\r'));
@@ -256,7 +290,7 @@ pub fn check_case(c: &Case, ctx: &mut Ctx) -> CheckResult {
     Ok(())
 }
 
-pub const RULE: &str = "cases = well-formed structure (FASTA: 0..3 leading blank lines, 0..5 records, header-only records, blank lines inside records, 0..2 trailing blank lines; FASTQ: 0..5 valid records, 0..2 trailing blank lines; fields free of CR/LF) rendered twice: all-LF and {all-CRLF | FASTA: per-line mixture}, with/without final terminator, read with two generated capacities (B also with a chunk script) in next / record-set / records() mode. Oracle: identical outcomes (records, terminal), identical line numbers, no CR in any field, and both equal the structure they were rendered from (so no error appears or disappears). Exhaustive sub-check over tiny structures x capacities 3..10. Non-trivial = >= 1 record and the two renderings differ. Distinct = hash(case).";
+pub const RULE: &str = "cases = well-formed structure (FASTA: 0..3 leading blank lines, 0..5 records, header-only records, blank lines inside records, 0..2 trailing blank lines; FASTQ: 0..5 valid records, 0..2 trailing blank lines; fields free of CR/LF) rendered twice: all-LF and {all-CRLF | FASTA: per-line mixture}, with/without final terminator, read with two generated capacities (B also with a chunk script) in next / record-set / records() mode. Oracle: identical outcomes (records, terminal), identical line numbers, identical whole-sequence views (full_seq, owned_seq, owned record), no CR in any field, and both equal the structure they were rendered from (so no error appears or disappears). Exhaustive sub-check over tiny structures x capacities 3..10. Non-trivial = >= 1 record and the two renderings differ. Distinct = hash(case).";
 
 pub fn run(tier: Tier) -> i32 {
     let mut run = Run::new("C12", tier, "exploration");
